@@ -71,7 +71,10 @@ fn gen_output(rng: &mut Rng, must_match_early: bool) -> Vec<u8> {
 pub fn gen_workload(sub: u64) -> Workload {
     let mut rng = Rng::new(sub);
     let kind = match rng.below(16) {
-        0..=3 => "pre",
+        0..=2 => "pre",
+        // -z given first, then --pre with a --pre-glob: the later --pre switches -z off, so a
+        // compressed-looking name that the glob does not select is searched directly
+        3 => "pre-glob-after-z",
         4 => "pre-glob-negated",
         5..=6 => "pre-glob",
         7..=8 => "zstub",
@@ -105,11 +108,12 @@ pub fn gen_workload(sub: u64) -> Workload {
     for i in 0..nf {
         let dir = if rng.chance(1, 3) { "sub/" } else { "" };
         let through_child = match kind.as_str() {
-            "pre-glob" | "pre-glob-negated" | "zstub" | "zreal" | "zstub+pre-glob-only" | "zstub-after-pre" | "zstub-then-empty-pre" => rng.chance(2, 3),
+            "pre-glob" | "pre-glob-after-z" | "pre-glob-negated" | "zstub" | "zreal" | "zstub+pre-glob-only" | "zstub-after-pre" | "zstub-then-empty-pre" => rng.chance(2, 3),
             _ => true,
         };
         let ext = match (kind.as_str(), through_child) {
-            ("pre-glob", true) | ("pre-glob-negated", true) => "sel",
+            ("pre-glob", true) | ("pre-glob-after-z", true) | ("pre-glob-negated", true) => "sel",
+            ("pre-glob-after-z", false) => ["gz", "bz2", "xz", "txt"][rng.below(4)],
             ("zstub", true) | ("zstub+pre-glob-only", true) | ("zstub-after-pre", true) | ("zstub-then-empty-pre", true) => ["gz", "bz2", "xz"][rng.below(3)],
             ("zreal", true) => {
                 // only tools that exist on this machine (gzip is part of the base system)
@@ -307,7 +311,7 @@ pub fn run_workload(sub: u64, acc: &mut Acc, ctx: &Ctx, _thorough: bool) {
             path_prefix = Some("/root/miniconda/bin".into());
             args.push("-z".into());
         }
-        "zstub+pre-glob-only" | "zstub-after-pre" | "pre-after-z" | "zstub-then-empty-pre" => {
+        "zstub+pre-glob-only" | "zstub-after-pre" | "pre-after-z" | "zstub-then-empty-pre" | "pre-glob-after-z" => {
             let bin = scratch.join("bin");
             let _ = std::fs::create_dir_all(&bin);
             for t in ["gzip", "bzip2", "xz"] {
@@ -317,6 +321,7 @@ pub fn run_workload(sub: u64, acc: &mut Acc, ctx: &Ctx, _thorough: bool) {
             path_prefix = Some(bin.display().to_string());
             match w.kind.as_str() {
                 "zstub+pre-glob-only" => args.extend(["-z".into(), "--pre-glob".into(), "*.gz".into()]),
+                "pre-glob-after-z" => args.extend(["-z".into(), "--pre".into(), STUB.into(), "--pre-glob".into(), "*.sel".into()]),
                 "zstub-after-pre" => args.extend(["--pre".into(), "/nonexistent/never-used".into(), "--pre-glob".into(), "*.gz".into(), "-z".into()]),
                 "zstub-then-empty-pre" => {
                     if sub % 2 == 0 {
